@@ -302,6 +302,60 @@ def _saverestore_rule(chk, prog):
                           "resume returns, the outer context runs with the inner value" % (g, f))
 
 
+def _envshare_rule(chk, prog):
+    """A fiber's environment table is created lazily (env == NULL until the first setdyn).  Code that makes a
+    child inherit the creator's environment - by sharing the table (:i) or by using it as prototype (:p, ev/go
+    and friends) - therefore has to create the creator's table first: handing on a NULL shares nothing, and
+    bindings the creator makes afterwards are invisible to the child."""
+    rule = "C05-ENVSHARE"
+    chk.rule(rule, "the creator's env handed to a child (fiber->env / env->proto = janet_vm.fiber->env) is non-NULL on every path")
+    SRC = "janet_vm.fiber->env"
+    n = 0
+
+    def is_src(x):
+        x = strip_casts(x)
+        return x is not None and x.k == "mem" and x.field == "env" and x.rec == "JanetFiber" and x.text().replace(" ", "") == SRC
+
+    for fn in prog.all_funcs():
+        sites = [x for x in fn.nodes if x.k == "asg" and x.op == "=" and is_src(x.kids[1]) and not is_src(x.kids[0])
+                 and x.kids[0].k == "mem" and x.kids[0].field in ("env", "proto")]
+        if not sites:
+            continue
+        chk.analysed(fn)
+
+        def transfer(st, x):
+            if x.k == "asg" and x.op == "=" and is_src(x.kids[0]):
+                r = strip_casts(x.kids[1])
+                if r.k == "call" and r.callee in ("janet_table", "janet_table_init", "janet_gettable", "janet_table_clone"):
+                    return st | {"nn"}
+                return st - {"nn"}
+            return st
+
+        def edge(st, blk, succ, cond, truth):
+            c = flow.compare_of(cond, truth)
+            if c is None:
+                return st
+            l, op, r = c
+            if r is None and is_src(l):
+                return st | {"nn"} if op == "!=" else st - {"nn"}
+            if r is not None and op == "!=" and ((is_src(l) and r.v == 0) or (is_src(r) and l.v == 0)):
+                return st | {"nn"}
+            return st
+        IN, OUT, T = flow.forward_paths(fn, frozenset(), transfer, edge=edge)
+        for x, S in flow.states_at(fn, IN, T):
+            if x not in sites:
+                continue
+            n += 1
+            chk.instance(rule)
+            if all("nn" in ps for ps in S):
+                chk.ok(rule, "%s: %s after the creator's table exists" % (fn.name, x.text()[:60]))
+            else:
+                chk.violation(rule, fn.tu.name, fn.name, x.kids[0].text().replace(" ", ""), x.loc,
+                              "`%s` can run while the creator has no environment table yet (env == NULL): the child then shares "
+                              "nothing, and dynamic bindings the creator makes later are not visible in the inheriting child" % x.text()[:80])
+    chk.floor(rule, 3, n)
+
+
 def run(chk):
     prog = Program.load("default", units=["vm.c", "fiber.c", "value.c", "marsh.c", "ev.c", "util.c", "capi.c", "corelib.c"])
     _terminal_rule(chk, prog)
@@ -310,3 +364,4 @@ def run(chk):
     _layout_rule(chk, prog)
     _statuswrite_rule(chk, prog)
     _saverestore_rule(chk, prog)
+    _envshare_rule(chk, prog)
